@@ -15,7 +15,7 @@ from CircuitCalculator.Network.NodalAnalysis import node_analysis as na  # noqa:
 
 PROP = 'C03'
 RULE = ('base scenarios = reachable well-posed networks of MC_C03 and circuits of MC_C03c; each is replayed under seeded random combinations of naming scheme '
-        '(30 adversarial schemes), permutation of the listing, subset of reversed elements and reference node; non-trivial = transformed description differs from the base')
+        '(42 adversarial schemes), permutation of the listing, subset of reversed elements and reference node; non-trivial = transformed description differs from the base')
 
 
 def models(tier, seed):
